@@ -12,6 +12,7 @@ THEOREMS = [("C04", ["C04_nopanic", "C04_datum_nopanic", "C04_fuel_mono", "C04_t
             ("DeDispatchTie", ["tie_de_any", "tie_de_ignored", "tie_de_forward", "de_any_is_generated", "de_ignored_is_generated", "de_is_generated"])]
 PROOF_FILES = ["proofs/DeSafetyProofs.v", "proofs/DeTotalProofs.v", "proofs/ReaderProofs.v", "proofs/DeProofs.v", "props/C04.v", "proofs/DeDispatchTie.v", "proofs/DeClosure.v", "proofs/ContainerLimitsProofs.v"]
 TRUSTED_BASE = [
+    "harness/src/discard.rs: a DeserializeSeed over the same target language as the recording consumer that throws every value away and allocates nothing itself (field / variant names are matched against names interned when the case is parsed): whatever the counting allocator sees during `dealloc ... TARGET` is allocated by the deserializer",
     "lib/ocf.py (Python): null-codec container files written by hand (header, blocks of hand-encoded strings / bytes / fixed / small records, arrays, maps, unions); harness `cr ... (alloc N)` sets ReaderRead::max_alloc_size on the chunked source and measures the largest allocation during deserialize_seed_next; expected items: the property's statement (a field larger than the cap that is not fully buffered => Err, everything before it Ok) and the container reader model (Container.v, same lines)",
     "dispatch tie: translators/gen_dispatch.py (+ rustmatch.py) reads the arms of every deserialize_* method of DatumDeserializer into gen/GenDeDispatch.v; proofs/DeDispatchTie.v proves that model/De.v's de is the interpretation of those regenerated tables (the meaning of each action symbol, act_sem, is hand-written there)",
     "Coq 8.16.1 kernel; no axioms (Print Assumptions: closed)",
@@ -166,6 +167,25 @@ def run(ctx):
                     lines.append("de %s %s %s %s" % (sch, tg, C.hx(data), pl))
                     # 9 continuation bytes + a final byte is a legal (if padded) way of writing a number: decided by the model
                     meta.append(("overlong-varint-" + lab.split("-item")[0], "err" if len(ov) > 10 or (len(ov) == 10 and ov[-1] & 0x80) else None))
+    # ---- 2b'. unions of 0 / 1 / 2 / 3 branches (legal, the small ones rare) under Option<_> targets -- the hint with its own branch
+    #      lookup -- and the other consumers, every discriminant around the branch count, at the root / in a record / in an array:
+    #      an index outside the schema is an error, never a fault
+    small = [[N("union", variants=[])], [N("union", variants=[1]), N("string")], [N("union", variants=[1]), N("null")],
+             [N("union", variants=[1]), N("long")], [N("union", variants=[1, 2]), N("null"), N("string")],
+             [N("union", variants=[1, 2]), N("string"), N("null")], [N("union", variants=[1, 2, 3]), N("null"), N("long"), N("string")]]
+    import wrap
+    for u in small:
+        nb = len(u[0].variants)
+        forms = [("%s", u, b"", b""),
+                 ("(struct x575f5f (x68 i32) (x75 %s) (x74 str))", [N("record", name="W__", fields=[("h", 1), ("u", 3), ("t", 2)]), N("int"), N("string")] + wrap.shift(u, 3), G.varint(7), b"\x02t"),
+                 ("(seq %s)", [N("array", items=1)] + wrap.shift(u, 1), G.varint(1), b"\x00")]
+        for d in (0, 1, 2, 3, -1, 63, 64, 2**40):
+            for tgf, wn, pre, post in forms:
+                for inner_t in ["any", "ignored", "(option any)", "(option ignored)", "(option str)", "(option string)", "(option i64)", "(option unit)",
+                                "(option (enum x55 (unit x4e756c6c) (newtype x537472696e67 str) (newtype x4c6f6e67 i64)))"]:
+                    for mode in (["slice"] if quick else ["slice", "(chunks 1)"]):
+                        lines.append("de %s %s %s %s" % (G.schema_sx(wn), tgf % inner_t, C.hx(pre + G.varint(d) + rng.choice([b"", b"\x06abc", b"\x00"]) + post), mode))
+                        meta.append(("small-union-%d-branches" % nb, "err" if not (0 <= d < nb) else None))
     impl, model = codec.both(lines)
     for line, ri, rm, (kind, want) in zip(lines, impl, model, meta):
         distinct.add(line)
@@ -248,6 +268,19 @@ def run(ctx):
     for _ in range(n // 2):
         nodes, v = G.schema_and_value(rng)
         alines.append(("spec", nodes, v))
+    # every leaf kind (enums of 1 and several symbols among them) alone, in an array, as a record field, under a nullable union
+    for lab, lnodes in G.leaf_kind_schemas():
+        if lab.startswith("unknown-logical"):
+            continue
+        import wrap
+        for wn in (lnodes, [G.Node("array", items=1)] + wrap.shift(lnodes, 1),
+                   [G.Node("record", name="W__", fields=[("a", 1), ("x", 3), ("b", 2)]), G.Node("long"), G.Node("string")] + wrap.shift(lnodes, 3),
+                   [G.Node("map", values=1), G.Node("union", variants=[2, 3]), G.Node("null")] + wrap.shift(lnodes, 3)):
+            if lab == "null" and wn[0].t == "map":
+                continue
+            v = G.ValueGen(rng, wn).gen(0)
+            if v is not None:
+                alines.append(("spec", wn, v))
     sp = codec.spec_batch([(nodes, v) for _, nodes, v in alines])
     alines = []
     for s in sp:
@@ -255,6 +288,12 @@ def run(ctx):
         alines.append("dealloc %s %s slice (cfg 1000000 64)" % (s["schema"], s["enc"])); ameta.append(("slice-valid", None))
         cap = rng.choice([16, 64, 4096])
         alines.append("dealloc %s %s (chunks %d) (cfg 1000000 64 %d)" % (s["schema"], s["enc"], rng.choice([1, 3, 8]), cap)); ameta.append(("reader-valid", cap))
+        # the same through consumers that READ the value without allocating themselves (harness discard.rs): the ordinary Rust type
+        # of the schema (enums decoded BY NAME into unit variants, unions by branch name, borrowed strings / bytes), the
+        # dynamic consumer, Option<enum> positions, and the typed target with every Avro enum taken as an `identifier` / `str`
+        tgs = [s["ttarget"], "any"] + ([s["otarget"]] if s["otarget"] != s["ttarget"] else [])
+        for tg in tgs:
+            alines.append("dealloc %s %s slice (cfg 1000000 64) %s" % (s["schema"], s["enc"], tg)); ameta.append(("slice-valid-read", None))
         hb = hostile(rng, s["nodes"])
         alines.append("dealloc %s %s slice (cfg 50 8)" % (s["schema"], C.hx(hb))); ameta.append(("slice-hostile", None))
         alines.append("dealloc %s %s (chunks 2) (cfg 50 8 %d)" % (s["schema"], C.hx(hb), cap)); ameta.append(("reader-hostile", cap))
@@ -268,7 +307,8 @@ def run(ctx):
         nal, mx = (int(p[2]), int(p[3])) if p[0] == "ok" else (int(p[1]), int(p[2]))
         dist[kind + "/" + p[0]] += 1
         if kind.startswith("slice") and p[0] == "ok" and nal != 0:
-            violations.append({"impl_case": line, "what": "the slice path allocated (%d allocations, largest %d) on success" % (nal, mx)})
+            violations.append({"impl_case": line, "what": "the slice path allocated (%d allocations, largest %d) on success%s" % (
+                nal, mx, " (value read by a consumer that does not allocate: harness discard.rs)" if kind == "slice-valid-read" else "")})
         # (on the error path the largest allocation may be the error message itself)
         if cap is not None and mx > (max(cap, 32) if p[0] == "ok" else max(cap, 1024)):
             violations.append({"impl_case": line, "what": "reader path: a single allocation of %d bytes exceeds max_alloc_size %d" % (mx, cap)})
@@ -283,5 +323,7 @@ def run(ctx):
                     "chunked source with max_alloc_size 16..5000: a string / bytes / fixed field (in records, arrays, maps, unions) within / above "
                     "the cap in block 1, 2 or 3, and truncated files claiming a 2^28 / 2^40-byte field: items ok up to the field, then Err, largest "
                     "single allocation bounded by the cap, same items as the container model; counting allocator: zero allocations on the "
-                    "slice path on success, largest single allocation within the cap on the reader path",
+                    "slice path on success -- under IgnoredAny AND under consumers that read the value without allocating themselves (harness "
+                    "discard.rs: the schema's ordinary Rust type with enums decoded by name into unit variants, the dynamic consumer, Option<enum>; "
+                    "random schemas and every leaf kind alone / in an array / record / map of nullable) --, largest single allocation within the cap on the reader path",
             "samples": samples, "violations": violations, "model_diffs": diffs, "distribution": dict(dist)}
